@@ -215,6 +215,25 @@ func nRounds(run *report.Run) int {
 	return run.Pick(640, 24000)
 }
 
+// TestChildGoexit: tmon.GoexitScenario in a child of its own.
+func TestChildGoexit(t *testing.T) {
+	idx, _, _, ok := shard.Child()
+	if !ok {
+		t.Skip("not a shard child")
+	}
+	res := shard.NewResult()
+	defer shard.Emit(res)
+	sig, what, phase, evals := tmon.GoexitScenario(idx)
+	res.Evals += int64(evals)
+	if sig != "" {
+		res.Violation(sig, what, map[string]any{"scenario": "goexit", "phase": phase, "variant": idx % 3})
+		return
+	}
+	res.Counters["goexit_children"]++
+	res.Counters["callbacks_that_ended_their_goroutine"] += 21
+	res.Classes = append(res.Classes, fmt.Sprintf("goexit-child-%d", idx%3))
+}
+
 // TestChild runs one shard of rounds (the timer package's state is per process).
 func TestChild(t *testing.T) {
 	idx, total, _, ok := shard.Child()
@@ -278,6 +297,14 @@ func TestCheck(t *testing.T) {
 	if run.Thorough() {
 		nsh = 2 * runtime.NumCPU() // rounds mostly sleep
 	}
+	gx := make(chan struct{})
+	go func() {
+		defer close(gx)
+		for c := range shard.Run(run, "TestChildGoexit", "goexit", 3, 5*time.Minute) {
+			run.DistinctStr(c)
+		}
+	}()
+	defer func() { <-gx }()
 	for c := range shard.Run(run, "TestChild", "rounds", nsh, 45*time.Minute) {
 		run.DistinctStr(c)
 	}
